@@ -65,6 +65,9 @@ class C15(object):
             c['seed'] = rng.randrange(2 ** 31)
             c['beta'] = rng.choice([0.0, 0.5, 1.0, 3.0])
             c['bounds'] = (tier == 'thorough' and rng.random() < 0.15) or (tier == 'quick' and i % 23 == 0)
+            # which variables play X, Y and the conditioning / eavesdropper role (not always in ascending order)
+            c['assign'] = [0, 1, 2] if (c['bounds'] or rng.random() < 0.4) else rng.choice(
+                [[1, 0, 2], [2, 0, 1], [0, 2, 1], [2, 1, 0], [1, 2, 0]])
             yield c
 
     def shrink(self, case):
@@ -83,30 +86,31 @@ class C15(object):
         from dit.multivariate.common_informations.wyner_common_information import WynerCommonInformation
         from dit.multivariate.common_informations.exact_common_information import ExactCommonInformation
         k = case['cls']
+        a, b, c = case.get('assign', [0, 1, 2])
         if k == 'ITC':
-            return imi.IntrinsicTotalCorrelation(d, [[0], [1]], [2])
+            return imi.IntrinsicTotalCorrelation(d, [[a], [b]], [c])
         if k == 'IDTC':
-            return imi.IntrinsicDualTotalCorrelation(d, [[0], [1]], [2])
+            return imi.IntrinsicDualTotalCorrelation(d, [[a], [b]], [c])
         if k == 'ICAEKL':
-            return imi.IntrinsicCAEKLMutualInformation(d, [[0], [1]], [2])
+            return imi.IntrinsicCAEKLMutualInformation(d, [[a], [b]], [c])
         if k == 'MIN-ITC':
-            return mimi.MinimalIntrinsicTotalCorrelation(d, [[0], [1]], [2])
+            return mimi.MinimalIntrinsicTotalCorrelation(d, [[a], [b]], [c])
         if k == 'IB':
-            return InformationBottleneck(d, beta=case['beta'], rvs=[[0], [1]], crvs=[2] if case['seed'] % 2 else None)
+            return InformationBottleneck(d, beta=case['beta'], rvs=[[a], [b]], crvs=[c] if case['seed'] % 2 else None)
         if k == 'RDH':
             return RateDistortionHamming(d.marginal([0, 1]), beta=case['beta'])
         if k == 'OWSKAR':
-            return OneWaySKAR(d, [0], [1], [2])
+            return OneWaySKAR(d, [a], [b], [c])
         if k == 'SC':
-            return SecrecyCapacity(d, [0], [1], [2])
+            return SecrecyCapacity(d, [a], [b], [c])
         if k.startswith('DW-'):
             name = {'DW-TC': 'DeWeeseTotalCorrelation', 'DW-CAEKL': 'DeWeeseCAEKLMutualInformation',
                     'DW-CO': 'DeWeeseCoInformation', 'DW-DTC': 'DeWeeseDualTotalCorrelation'}[k]
-            return getattr(deweese, name)(d, [[0], [1]], [2])
+            return getattr(deweese, name)(d, [[a], [b]], [c])
         if k == 'WYNER':
-            return WynerCommonInformation(d, [[0], [1]], [2] if case['seed'] % 2 else None)
+            return WynerCommonInformation(d, [[a], [b]], [c] if case['seed'] % 2 else None)
         if k == 'EXACT':
-            return ExactCommonInformation(d, [[0], [1]])
+            return ExactCommonInformation(d, [[a], [b]])
         raise ValueError(k)
 
     def vector(self, case, opt, rs):
@@ -204,14 +208,17 @@ class C15(object):
             u = gen.UNIVERSE[case['klass']]
             inv = {s_: i for i, s_ in enumerate(u)}
             got = {}
+            pa, pb, pc = case.get('assign', [0, 1, 2])
             for o, v in zip(m.outcomes, m.pmf):
                 if v > 0:
-                    got[(inv[o[0]], inv[o[1]], o[2])] = float(v)
+                    key = [None, None, None]
+                    key[pa], key[pb], key[pc] = inv[o[pa]], inv[o[pb]], o[pc]
+                    got[tuple(key)] = float(v)
 
             def slices(tab):
                 out = {}
-                for (a, b, z), p in tab.items():
-                    out.setdefault(z, {})[(a, b)] = p
+                for key, p in tab.items():
+                    out.setdefault(key[pc], {})[(key[pa], key[pb])] = p
                 return out
             sa, sb = slices(src), slices(got)
             ok = len(sa) == len(sb)
@@ -255,6 +262,12 @@ class C15(object):
             rel = float(opt.relevance(joint))
             if expect('complexity = I[X:T|Z]', comp, cmi(joint, X, W, Z)) and expect('relevance = I[Y:T|Z]', rel, cmi(joint, Y, W, Z)):
                 # complexity <= H(X|Z), relevance <= I(X:Y|Z) for every feasible point
+                dist_ = float(opt.distortion(joint))
+                if not expect('distortion = I[X:Y|Z] - I[Y:T|Z]', dist_, cmi(joint, X, Y, Z) - cmi(joint, Y, W, Z)):
+                    return
+                if not expect('objective = I[X:T|Z] + beta (I[X:Y|Z] - I[Y:T|Z])', obj,
+                              cmi(joint, X, W, Z) + case['beta'] * (cmi(joint, X, Y, Z) - cmi(joint, Y, W, Z))):
+                    return
                 if comp > Hax(joint, {0, 2}) - Hax(joint, {2}) + 1e-9:
                     r.oracle_fail = 'complexity %r exceeds H(X|Z)' % comp
                 elif rel > cmi(joint, X, Y, Z) + 1e-9:
